@@ -22,7 +22,8 @@ func NewByteStream(b []byte) *ByteStream {
 }
 
 func (b *ByteStream) ReadAll() ([]rune, error) {
-	data, _, err := readRune(b.reader, b.encBuffer, b.length)
+	// the whole slice is read at once: nothing more can arrive afterwards
+	data, _, _, err := readRune(b.reader, b.encBuffer, b.length, true)
 	if err != nil {
 		return []rune{}, err
 	}
@@ -30,7 +31,7 @@ func (b *ByteStream) ReadAll() ([]rune, error) {
 }
 
 func (b *ByteStream) Read(n int) ([]rune, error) {
-	data, remains, err := readRune(b.reader, b.encBuffer, n)
+	data, remains, _, err := readRune(b.reader, b.encBuffer, n, false)
 	if err != nil {
 		return []rune{}, err
 	}
